@@ -26,11 +26,14 @@ def job(args):
         open(os.path.join(tmp, sweep.PKG, r["file"]), "w").write(src)
         res = run_rules_on(tmp, sorted(RULES))
         r = dict(r)
-        r["rules_fired"] = sorted({v.split("|")[0] for v in res["violations"]})
+        r["rules_fired"] = sorted({v.split("|")[0] for v in res["violations"] if v not in BASE})
         r["unresolved"] = len(res["unresolved"]); r["errors"] = res["errors"][:2]
         return r
     finally:
         shutil.rmtree(tmp, ignore_errors=True)
+from sa.rules import RULES as _R, load_all as _la; _la()
+from sa.selftest import run_rules_on as _run
+BASE = set(_run(sweep.REPO, sorted(_R))["violations"])
 todo = [(r, variant(r)) for r in keep]
 todo = [t for t in todo if t[1]]
 with ProcessPoolExecutor(int(os.environ.get("JOBS", "4"))) as ex, open(out_file, "w") as fh:
